@@ -75,7 +75,7 @@ func rtOf(client int) time.Duration {
 }
 
 // script builds the transport script for fault f after prefix p.
-func script(reply []byte, p int, f string, rng *rand.Rand) xport.Script {
+func script(reply []byte, p int, f string, rng *rand.Rand, serial bool) xport.Script {
 	var steps []xport.ReadStep
 	if p > 0 {
 		if p > 3 && rng.Intn(2) == 0 {
@@ -88,6 +88,13 @@ func script(reply []byte, p int, f string, rng *rand.Rand) xport.Script {
 	s := xport.Script{Reply: reply, Steps: steps, Tail: "deadline"}
 	switch f {
 	case "stall":
+		// silence spelled the ways transports spell it: the bare deadline sentinel, the sentinel inside a wrapping error,
+		// and (serial ports) zero bytes without any error
+		tails := []string{"deadline", "deadline", "deadline-wrapped"}
+		if serial {
+			tails = append(tails, "zero", "zero")
+		}
+		s.Tail = tails[rng.Intn(len(tails))]
 	case "eof":
 		s.Tail = "eof"
 	case "inject":
@@ -266,14 +273,14 @@ func run(ci any, r *mon.Rec) {
 				if c.Client == clientx.Serial && !c.Dense && (f == "stall" || f == "eof") && p%3 != 0 && p != E-1 && p != L-1 {
 					continue // each costs a full serial timeout
 				}
-				out := clientx.Run(c.Client, req, script(reply, p, f, rng), opt)
+				out := clientx.Run(c.Client, req, script(reply, p, f, rng, c.Client == clientx.Serial), opt)
 				x.verdict(out, f, p, "")
 			}
 		}
 		r.Sample(map[string]any{"client": clientx.KindName(c.Client), "fc": c.FC, "reply_len": L, "prefixes": len(ps), "faults": faults})
 	case "misc":
 		// write error
-		out := clientx.Run(c.Client, req, script(reply, 0, "write", rng), opt)
+		out := clientx.Run(c.Client, req, script(reply, 0, "write", rng, c.Client == clientx.Serial), opt)
 		x.verdict(out, "write", 0, "")
 		// nil request: error before any transport call
 		out = clientx.Run(c.Client, nil, xport.Script{Reply: reply, Steps: xport.Cuts(L, nil, 0), Tail: "deadline"}, opt)
@@ -335,7 +342,7 @@ func run(ci any, r *mon.Rec) {
 		}
 		// serial: flush failing on an error path must still yield a *ClientError
 		if c.Client == clientx.Serial {
-			s := script(reply, min(2, L-1), "inject", rng)
+			s := script(reply, min(2, L-1), "inject", rng, c.Client == clientx.Serial)
 			s.FlushErr = true
 			out := clientx.Run(c.Client, req, s, clientx.Options{ReadTimeout: rtOf(c.Client), Flusher: true})
 			r.Eval(1)
@@ -363,7 +370,7 @@ func run(ci any, r *mon.Rec) {
 				if f1 == "ok" {
 					o1 = sess.Do(req, xport.Script{Reply: reply, Steps: xport.Cuts(L, nil, 0), Tail: "deadline"})
 				} else {
-					o1 = sess.Do(req, script(reply, p1, f1, rng))
+					o1 = sess.Do(req, script(reply, p1, f1, rng, c.Client == clientx.Serial))
 				}
 				if o1.Hung {
 					x.verdict(o1, f1, p1, "")
@@ -394,7 +401,7 @@ func run(ci any, r *mon.Rec) {
 					}
 					continue
 				}
-				o2 := sess.Do(req, script(reply, p2, f2, rng))
+				o2 := sess.Do(req, script(reply, p2, f2, rng, c.Client == clientx.Serial))
 				x.verdict(o2, f2, p2, f1)
 			}
 		}
